@@ -5,6 +5,10 @@ V = os.path.dirname(os.path.dirname(os.path.abspath(__file__)))
 props = [json.loads(l) for l in open(os.path.join(V, "properties.jsonl"))]
 
 CLAIMED = {
+ "C17": dict(
+  technique="rapid-generated documents (model-rendered journals and token soup) with decoded-array validity and lexeme-span oracles; rapid state-machine histories with a client model applying semantic-token delta edits",
+  text="For every generated document the relative token array is decoded and validated against the text (document order, no overlap, inside the line in UTF-16 units, no split surrogate pair, non-empty, type and modifier bits inside the advertised legend); for journals rendered from the model every account / commodity / payee / date / amount / tag / tag value / directive / code / status / comment / operator token must start at and have the length of a renderer lexeme of that kind (code with parentheses, quoted commodity with quotes). Range answers must be an ordered subset of the full answer that contains every token inside the range and none from lines outside it. Histories of edits, full, delta (current, stale, unknown, empty, foreign previousResultId), close and re-open on 1..3 documents sharing a server are replayed against a client model that keeps every result by id and applies the returned edits; the rebuilt array must equal the full result for the current text.",
+  note="Tokens of type 'string' (notes, subdirective text, include paths) are only validated structurally. A tag token may include its colon. Which lexemes get a token at all is not prescribed, only that an emitted token covers exactly one lexeme of its kind. The full result used as delta reference is obtained by a range request over all lines, which does not touch the server's delta cache."),
  "C02": dict(
   technique="model-based generation of balanced/unbalanced transactions with rapid; published verdicts compared with the exact balance rule in rational arithmetic",
   text="Transactions are constructed in the model with known exact sums (free postings of the three kinds with unit/total costs in every number notation, then completed to balanced-by-cancelling, balanced-by-one-amountless, unbalanced by a chosen exact residual in one commodity, or several amountless postings). The document goes through didOpen; per transaction UNBALANCED / MULTIPLE_INFERRED must be present exactly when the rule of the property says so (math/big rationals over the model), never both, and the per-commodity differences parsed from the message must equal the true absolute residuals as a set.",
